@@ -143,8 +143,10 @@ def _plain(spec):
 def oracle(c, ctx):
     """C09 on the real code: `k op x` / `x op k` is a barril object of x's class; for the eight forms it has
     x's quantity and the values `op` applied elementwise; `k / x`, `k // x` have the reciprocal quantity and
-    the value k / v.  Demands nothing for malformed operands, zero divisors, Scalar with an ndarray (no Scalar
-    can hold the elementwise result; the code raises) and hand-built quantities that are not `normal`."""
+    the reciprocal dimension and the value k / v.  ALL quantities are judged, hand-built dicts included (known
+    finding CLASS_MIXED).  Demands nothing where the text gives no answer: malformed operands, zero divisors,
+    Scalar with an ndarray (no Scalar can hold the elementwise result; the code raises), an ndarray of another
+    length (numpy broadcasting), and the representation of 1/x when x has null factors or two units of one type."""
     import warnings
 
     import numpy as np
@@ -189,32 +191,88 @@ def oracle(c, ctx):
     normal = oc.is_normal(ctx, q) or not q
     rq = oc.entries(r.GetQuantity())
     recip = k_left and f in ("div", "floordiv")
-    if normal:
-        want = [[cc, u, -int(e)] for cc, u, e in q] if recip else [[cc, u, int(e)] for cc, u, e in q]
-        if rq != want:
-            return dict(clause="k/x has the reciprocal quantity" if recip else "the result keeps x's quantity",
-                        form=form, got=rq, want=want)
-        if not recip and (r.GetQuantity() != x.GetQuantity() or r.GetUnit() != x.GetUnit()):
-            return dict(clause="the result keeps x's quantity", form=form, got=r.GetUnit(), want=x.GetUnit())
-    if normal or not recip:
-        got = [r.value] if isinstance(r, Scalar) else list(r.values)
-        if len(got) != len(xs):
-            return dict(clause="one result value per value of x", form=form, got=len(got), want=len(xs))
+    cls = CLASS_MIXED if (xspec["t"] == "array" and not recip and oc.mixed_units(ctx.db, q)) else None
+
+    def fail(**kw):
+        if cls:
+            kw["class"] = cls
+        return kw
+
+    dim_x, dim_r = oc.dimension(ctx.db, q), oc.dimension(ctx.db, rq)
+    if recip:
+        # "k/x and k//x have the reciprocal dimension and the value k divided by x's value"
+        if dim_r != {qt: -e for qt, e in dim_x.items()}:
+            return fail(clause="k/x has the reciprocal dimension", form=form, got=rq, x=q)
         if not normal:
-            return None  # mixed-unit dicts: the values are converted first (engine Alg)
-        for i, (n_, d_) in enumerate(pairs):
-            with warnings.catch_warnings():
-                warnings.simplefilter("ignore")
-                with np.errstate(all="ignore"):
-                    want = oc.PYOP[f](float(n_), float(d_))
-            g = float(got[i])
-            if not (math.isfinite(want) and math.isfinite(g)):
-                continue
-            f32 = oc.uses_f32(kspec) or isinstance(got[i], np.float32)
-            tol = (1e-5 if f32 else 1e-9) * max(abs(want), abs(float(n_)), abs(float(d_)), 1e-300)
-            if abs(g - want) > tol and not (f == "floordiv" and abs(g - want) <= 1.0 + tol and _near_int(float(n_) / float(d_), f32)):
-                return dict(clause="the operation is applied to the value(s)", form=form, index=i, got=g, want=want)
+            return None  # null factors / two units of one type: the text fixes no representation of 1/x
+        want = [[cc, u, -int(e)] for cc, u, e in q]
+        if rq != want:
+            return fail(clause="k/x has the reciprocal quantity", form=form, got=rq, want=want)
+    else:
+        # the eight forms keep x's quantity: for every quantity, simple or derived
+        want = [[cc, u, int(e)] for cc, u, e in q]
+        if normal and (rq != want or r.GetQuantity() != x.GetQuantity()):
+            return fail(clause="the result keeps x's quantity", form=form, got=rq, want=want)
+        if r.GetUnit() != x.GetUnit() or dim_r != dim_x:
+            # (items with exponent 0 and cancelling items are null factors: unit and dimension decide)
+            return fail(clause="the result keeps x's quantity", form=form, got=rq, want=want,
+                        got_unit=r.GetUnit(), want_unit=x.GetUnit())
+    got = [r.value] if isinstance(r, Scalar) else list(r.values)
+    if len(got) != len(xs):
+        return fail(clause="one result value per value of x", form=form, got=len(got), want=len(xs))
+    for i, (n_, d_) in enumerate(pairs):
+        with warnings.catch_warnings():
+            warnings.simplefilter("ignore")
+            with np.errstate(all="ignore"):
+                want_v = oc.PYOP[f](float(n_), float(d_))
+        g = float(got[i])
+        if not (math.isfinite(want_v) and math.isfinite(g)):
+            continue
+        f32 = oc.uses_f32(kspec) or isinstance(got[i], np.float32)
+        tol = (1e-5 if f32 else 1e-9) * max(abs(want_v), abs(float(n_)), abs(float(d_)), 1e-300)
+        if abs(g - want_v) > tol and not (f == "floordiv" and abs(g - want_v) <= 1.0 + tol and _near_int(float(n_) / float(d_), f32)):
+            return fail(clause="the operation is applied to the value(s)", form=form, index=i, got=g, want=want_v)
     return None
+
+
+CLASS_MIXED = "array-with-number: quantity holds two different units of one quantity type"
+_EIGHT = {("mul", "kx"), ("mul", "xk"), ("div", "xk"), ("floordiv", "xk"), ("sum", "xk"), ("sum", "kx"),
+          ("sub", "xk"), ("sub", "kx")}
+
+
+def matches_known(entry, case, failure):
+    """Only the recorded input class is excused: an ARRAY (never a Scalar) whose quantity holds two different
+    units of one quantity type, a plain number / ndarray on the other side, one of the eight quantity-keeping
+    forms, failing 'keeps x's quantity' or 'applied to the value(s)'.  Everything else stays a violation."""
+    from barril.units.unit_database import UnitDatabase
+
+    if (entry.get("matcher") or {}).get("class") != CLASS_MIXED or not failure or failure.get("class") != CLASS_MIXED:
+        return False
+    if case.get("op") != "binop":
+        return False
+    t = case["_t"]
+    a, b = t["a"], t["b"]
+    if _plain(a) == _plain(b):
+        return False
+    x, side = (b, "kx") if _plain(a) else (a, "xk")
+    if x["t"] != "array" or (t["f"], side) not in _EIGHT:
+        return False
+    if failure.get("clause") not in ("the result keeps x's quantity", "the operation is applied to the value(s)"):
+        return False
+    return oc.mixed_units(UnitDatabase.GetSingleton(), x["q"])
+
+
+def replay_finding(entry, ctx):
+    if (entry.get("matcher") or {}).get("class") != CLASS_MIXED:
+        return None
+    rc = entry.get("replay_case") or {}
+    q = [[c, u, int(e)] for c, u, e in rc.get("composing", [["length", "m", 1], ["depth", "cm", 1]])]
+    f = {"+": "sum", "-": "sub", "*": "mul", "/": "div", "//": "floordiv"}[rc.get("op", "+")]
+    k = rc.get("k", 1)
+    x = oc.array_spec(q, rc.get("kind", "list"), rc.get("values", [1.0, 2.0]))
+    c = oc.binop_case(f, x, oc.num_spec("int" if isinstance(k, int) else "float", k))
+    fl = oracle(c, ctx)
+    return fl if (fl and matches_known(entry, c, fl)) else None
 
 
 def _near_int(p, f32):
